@@ -3,7 +3,7 @@
 # Confirms an agent-made change myself in a scratch copy (tests still pass, demo fails with / passes without),
 # runs my quick check(s) against it, and files it under /verif/seeded/<PID>-<A|B>/.
 SRCID=$1; V=$2; shift 2; PID=$(echo "$SRCID" | sed "s/r[0-9]*$//"); CHECKS="${*:-$PID}"
-OUTV=$V; case "$SRCID" in *r2) [ "$V" = A ] && OUTV=C || OUTV=D;; *r3) [ "$V" = A ] && OUTV=E || OUTV=F;; *r4) [ "$V" = A ] && OUTV=G || OUTV=H;; *r5) [ "$V" = A ] && OUTV=I || OUTV=J;; *r6) [ "$V" = A ] && OUTV=K || OUTV=L;; *r7) [ "$V" = A ] && OUTV=M || OUTV=N;; *r8) [ "$V" = A ] && OUTV=O || OUTV=P;; *r9) [ "$V" = A ] && OUTV=Q || OUTV=R;; *r10) [ "$V" = A ] && OUTV=S || OUTV=T;; *r11) [ "$V" = A ] && OUTV=U || OUTV=V;; *r12) [ "$V" = A ] && OUTV=W || OUTV=X;; esac
+OUTV=$V; case "$SRCID" in *r2) [ "$V" = A ] && OUTV=C || OUTV=D;; *r3) [ "$V" = A ] && OUTV=E || OUTV=F;; *r4) [ "$V" = A ] && OUTV=G || OUTV=H;; *r5) [ "$V" = A ] && OUTV=I || OUTV=J;; *r6) [ "$V" = A ] && OUTV=K || OUTV=L;; *r7) [ "$V" = A ] && OUTV=M || OUTV=N;; *r8) [ "$V" = A ] && OUTV=O || OUTV=P;; *r9) [ "$V" = A ] && OUTV=Q || OUTV=R;; *r10) [ "$V" = A ] && OUTV=S || OUTV=T;; *r11) [ "$V" = A ] && OUTV=U || OUTV=V;; *r12) [ "$V" = A ] && OUTV=W || OUTV=X;;  *r13) [ "$V" = A ] && OUTV=Y || OUTV=Z;; esac
 SRC=/root/scratch/agent_out/$SRCID/$V; [ -d "$SRC" ] || SRC=/tmp/wt-$PID/_out/$V
 [ -f "$SRC/patch.diff" ] || { echo "no $SRC/patch.diff"; exit 1; }
 D=$(mktemp -d /root/scratch/ing.XXXXXX); mkdir -p "$D/src" "$D/out"
